@@ -1,4 +1,5 @@
 import FrappyProofs.Lemmas.Dispatch
+import FrappyProofs.Lemmas.CheckChain
 import FrappyModel.Generated.C04
 import FrappyProofs.Props.C01
 /-
@@ -653,6 +654,53 @@ theorem calls_merge_current (cur : V) (acts : List (Act J V)) (s : CState J V)
       · cases hr
   exact (gen acts _ s ⟨(by intro j v hv; cases hv), (by intro c hc; cases hc)⟩ h).2
 
+/-! the merge clause does not depend on the dispatcher's request lock -/
+
+theorem sectionInv_stepFree (s s' : CState J V) (a : Act J V) (h : SectionInv merge s)
+    (hs : ChangeSection.stepFree merge s a = some s') : SectionInv merge s' := by
+  obtain ⟨hm, hc⟩ := h
+  cases a with
+  | begin t => simp only [ChangeSection.stepFree] at hs; injection hs with hs; subst hs; exact ⟨hm, hc⟩
+  | finish t => simp only [ChangeSection.stepFree] at hs; injection hs with hs; subst hs; exact ⟨hm, hc⟩
+  | merge t j =>
+    simp only [ChangeSection.stepFree] at hs; split at hs
+    · rename_i ho
+      injection hs with hs; subst hs
+      refine ⟨?_, hc⟩
+      intro j' v' hv
+      simp only [mergeNow] at hv
+      split at hv
+      · rename_i w hw
+        injection hv with hv; injection hv with h1 h2; subst h1; subst h2
+        exact ⟨(by rw [ho]; simp), hw⟩
+      · cases hv
+    · cases hs
+  | acquire t => exact sectionInv_step merge s s' (.acquire t) ⟨hm, hc⟩ hs
+  | call t => exact sectionInv_step merge s s' (.call t) ⟨hm, hc⟩ hs
+  | direct t => exact sectionInv_step merge s s' (.direct t) ⟨hm, hc⟩ hs
+  | store t v => exact sectionInv_step merge s s' (.store t v) ⟨hm, hc⟩ hs
+  | release t => exact sectionInv_step merge s s' (.release t) ⟨hm, hc⟩ hs
+
+/-- **merge_clause_needs_no_request_lock.**  Also when the dispatcher does NOT serialise the requests (`stepFree`: any
+number of requests under way at once, the merge guarded by `accessLock` alone — the code after repair 4e36b36 with the
+dispatcher lock released before the handler runs), every driver call caused by a request is given the payload merged into
+the value cached at the moment of the call.  The clause rests on `accessLock`; what the request lock adds is
+`requests_one_at_a_time`, the precondition of the SEQUENTIAL theorems. -/
+theorem merge_clause_needs_no_request_lock (cur : V) (acts : List (Act J V)) (s : CState J V)
+    (h : ChangeSection.runFree merge (ChangeSection.init cur) acts = some s) : CallsMergeCurrent merge s := by
+  have gen : ∀ (acts : List (Act J V)) (s0 s : CState J V), SectionInv merge s0 →
+      ChangeSection.runFree merge s0 acts = some s → SectionInv merge s := by
+    intro acts
+    induction acts with
+    | nil => intro s0 s h0 hr; injection hr with hr; subst hr; exact h0
+    | cons a rest ih =>
+      intro s0 s h0 hr
+      simp only [ChangeSection.runFree] at hr
+      split at hr
+      · rename_i s1 hs1; exact ih s1 s (sectionInv_stepFree merge s0 s1 a h0 hs1) hr
+      · cases hr
+  exact (gen acts _ s ⟨(by intro j v hv; cases hv), (by intro c hc; cases hc)⟩ h).2
+
 /-- **requests_one_at_a_time.**  In every run of the system the requests are handled strictly one after the other
 (no `begin` while another request is being handled, `finish` only by the thread that began): the precondition under
 which the sequential theorems (`request_ok`, `histories`) describe a node serving several connections. -/
@@ -773,6 +821,18 @@ example : ChangeSection.run mergePI (ChangeSection.init (0, 0))
 
 end changeSection
 
+open SectionExample in
+/-- two requests under way at once (not a run of `step`: the second `begin` is refused) are a run of the system without
+the request lock, and both calls got their payload merged into the value cached at their moment -/
+example : ChangeSection.run mergePI (ChangeSection.init (0, 0))
+      [.begin 1, .begin 2, .acquire 1, .merge 1 (some 1, none), .call 1, .store 1 (1, 0), .release 1,
+       .acquire 2, .merge 2 (none, some 2), .call 2, .store 2 (1, 2), .release 2, .finish 2, .finish 1] = none ∧
+    ((ChangeSection.runFree mergePI (ChangeSection.init (0, 0))
+      [.begin 1, .begin 2, .acquire 1, .merge 1 (some 1, none), .call 1, .store 1 (1, 0), .release 1,
+       .acquire 2, .merge 2 (none, some 2), .call 2, .store 2 (1, 2), .release 2, .finish 2, .finish 1]).map
+        (fun s => s.calls.map (fun c => (c.current, c.value)))) = some [((0, 0), (1, 0)), ((1, 0), (1, 2))] := by
+  decide
+
 /-! ### table facts (re-checked whenever the repository's table changes) -/
 
 /-- `PREDEFINED_ACCESSIBLES` has no duplicate name: the first-match look-up of the model is the dict look-up -/
@@ -871,5 +931,283 @@ open Example in
 example : HistoryOK pre node [(env, .change (.full "m" "target_max") 80), (env, .change (.full "m" "target") 60),
     (env, .do_ (.full "m" "stop") none), (env, .read (.full "m" "_k") false)] :=
   (histories pre node wf _).1
+
+/-! ### the class layout decides which checks a parameter is subject to
+
+`Param.checks` is no longer data taken from the finished class: the model computes it from the class layout
+(`chainOf`, the transcription of `HasAccessibles.__init_subclass__` 156-172).  The theorems say what that chain means in
+terms of the layout alone. -/
+
+section layout
+open Frappy.ExtParams (Layer)
+open Frappy.Spec.C18 (AutoApplies)
+
+/-- **chain_layout_iff.**  A value passes the chain of check functions `__init_subclass__` builds for the class layout
+`ls` if and only if, for the position `stop` of the first programmer's hook that takes the decision over (if any), every
+programmer's hook of a class before it passes and — whenever the automatic limit check applies (`AutoApplies`: a class
+that defines one of `<p>_min/_max/_limits` first has no `check_<p>` of its own and stands before `stop`) — the value is
+inside the current dynamic limits. -/
+theorem chain_layout_iff (env : Env V) (mod : Module J V) (attr : String) (v : V) (ls : List Layer) :
+    ChecksOK env mod attr v (chainOf ls 0) ↔ LayoutChecksOK env mod attr v ls :=
+  ⟨chain_sound env mod attr v ls 0, fun ⟨stop, h⟩ => chain_complete env mod attr v ls 0 stop h⟩
+
+/-- **layout_change_calls_iff.**  `change_calls_iff` for a parameter equipped for the class layout `ls`: the clause
+"dynamic limits and check hooks are satisfied" is the one over the layout. -/
+theorem layout_change_calls_iff (pre : Predef) (env : Env V) (n : Node J V) (hwf : Node.WF pre n) (spec : Spec) (j : J)
+    (m attr : String) (w : V) (ls : List Layer)
+    (hlay : ∀ mod ∈ n, ∀ p, Acc.param p ∈ mod.accs → mod.name = m → p.attr = attr → p.checks = chainOf ls 0) :
+    (handleChange pre env n spec j).calls = [DriverCall.write m attr w] ↔
+      ∃ mod p v, Accepted pre env n spec j mod p v w ∧ LayoutChecksOK env mod attr v ls ∧ p.hasWrite = true ∧
+        mod.name = m ∧ p.attr = attr := by
+  rw [change_calls_iff pre env n hwf spec j m attr w]
+  constructor
+  · rintro ⟨mod, p, v, hacc, hw, hm, ha⟩
+    obtain ⟨_, _, _, hex⟩ := hacc.addressed
+    have hc := hlay mod hex.1 p hex.2.2.2.1 hm ha
+    have := hacc.checks
+    rw [hc, ha] at this
+    exact ⟨mod, p, v, hacc, (chain_layout_iff env mod attr v ls).1 this, hw, hm, ha⟩
+  · rintro ⟨mod, p, v, hacc, _, hw, hm, ha⟩
+    exact ⟨mod, p, v, hacc, hw, hm, ha⟩
+
+/-- **limits_not_switched_off.**  Whenever the driver is called for a parameter of a class with layout `ls`, the automatic
+limit check applies to the layout (`AutoApplies ls none`: e.g. the limits were introduced by a class that merely INHERITS
+a `check_<p>`), and no programmer's hook took the decision over, the value handed on is inside the module's current
+dynamic limits. -/
+theorem limits_not_switched_off (pre : Predef) (env : Env V) (n : Node J V) (hwf : Node.WF pre n) (spec : Spec) (j : J)
+    (m attr : String) (w : V) (ls : List Layer)
+    (hlay : ∀ mod ∈ n, ∀ p, Acc.param p ∈ mod.accs → mod.name = m → p.attr = attr → p.checks = chainOf ls 0)
+    (hauto : AutoApplies ls none)
+    (h : (handleChange pre env n spec j).calls = [DriverCall.write m attr w]) :
+    ∃ mod p v, Accepted pre env n spec j mod p v w ∧ mod.name = m ∧ p.attr = attr ∧
+      ((∀ i, i < ls.length → ownAt ls i = true → env.chk mod.name attr i v ≠ .stop) → LimitsOK env mod attr v) := by
+  obtain ⟨mod, p, v, hacc, ⟨stop, hl⟩, _, hm, ha⟩ := (layout_change_calls_iff pre env n hwf spec j m attr w ls hlay).1 h
+  refine ⟨mod, p, v, hacc, hm, ha, fun hns => ?_⟩
+  cases stop with
+  | none => exact hl.limits hauto
+  | some s =>
+    obtain ⟨h1, h2, h3⟩ := hl.stops s rfl
+    have := hns s h1 h2
+    rw [Nat.zero_add] at h3
+    exact absurd h3 this
+
+/-- **fitting_limits_layout.**  The fitting class for a value outside the current dynamic limits of a parameter whose class
+layout makes the automatic check apply, every programmer's hook raising no objection: RangeError — wherever in the
+hierarchy the limit parameters were introduced — and nothing else happens. -/
+theorem fitting_limits_layout (pre : Predef) (env : Env V) (n : Node J V) (hwf : Node.WF pre n) (spec : Spec) (j : J)
+    (m a : String) (ht : target "target" spec = some (m, a)) (mod : Module J V) (p : Param J V)
+    (hex : ExportedParam pre n m a mod p) (hro : p.readonly = false) (hc : p.constant = none) (v w : V)
+    (hacc : p.dt.accept j (some p.entry.value) = .ok v) (hord : p.isLimitsPair = false) (hrev : p.dt.revalidate v = .ok w)
+    (ls : List Layer) (hchk : p.checks = chainOf ls 0) (hauto : AutoApplies ls none)
+    (hpass : ∀ i, i < ls.length → ownAt ls i = true → env.chk mod.name p.attr i v = .pass)
+    (hlim : ¬ LimitsOK env mod p.attr v) :
+    handleChange pre env n spec j = ⟨.error .rangeError, [], [], n⟩ := by
+  unfold handleChange; rw [ht]; simp only
+  rw [lookupParam_of_exported pre n hwf m a mod p hex]; simp only
+  unfold admitChange
+  have hrun := chain_refuses_range env mod p.attr v hlim ls 0 hauto (fun i hi ho => by rw [Nat.zero_add]; exact hpass i hi ho)
+  simp [hro, hc, hacc, hord, hrev, hchk, hrun, refuse, mkErr]
+
+end layout
+
+/-! ### the layout clause along histories -/
+
+section layoutHistories
+open Frappy.ExtParams (Layer)
+open Frappy.Spec.C18 (AutoApplies)
+
+/-- every parameter `attr` of a module named `m` is equipped for the class layout `ls` -/
+def HasLayout (n : Node J V) (m attr : String) (ls : List Layer) : Prop :=
+  ∀ mod ∈ n, ∀ p, Acc.param p ∈ mod.accs → mod.name = m → p.attr = attr → p.checks = chainOf ls 0
+
+/-- the cache moves, the classes do not: storing a value leaves the layout untouched -/
+theorem hasLayout_setEntry (n : Node J V) (m attr : String) (ls : List Layer) (h : HasLayout n m attr ls)
+    (mod' attr' : String) (e : Entry V) : HasLayout (setEntry n mod' attr' e) m attr ls := by
+  intro mod hmod p hp hm ha
+  rw [setEntry_eq_map] at hmod
+  obtain ⟨mod0, hmod0, rfl⟩ := List.mem_map.1 hmod
+  rw [updMod_name] at hm
+  obtain ⟨a0, ha0, hEq⟩ := updMod_acc mod' attr' e mod0 _ hp
+  rcases hEq with hEq | hEq
+  · subst hEq; exact h mod0 hmod0 p ha0 hm ha
+  · cases a0 with
+    | param p0 =>
+      simp only [Acc.setEntry] at hEq
+      split at hEq
+      · injection hEq with hEq; subst hEq; exact h mod0 hmod0 p0 ha0 hm ha
+      · injection hEq with hEq; subst hEq; exact h mod0 hmod0 p ha0 hm ha
+    | command c => simp [Acc.setEntry] at hEq
+
+theorem hasLayout_step (pre : Predef) (env : Env V) (n : Node J V) (r : Request J V) (m attr : String) (ls : List Layer)
+    (h : HasLayout n m attr ls) : HasLayout (step pre env n r).node m attr ls := by
+  rcases step_node pre env n r with hn | ⟨mod, a, e, hn⟩
+  · rw [hn]; exact h
+  · rw [hn]; exact hasLayout_setEntry n m attr ls h mod a e
+
+/-- what `limits_not_switched_off` says of every `change` of a history, each judged on the node (cache, hence dynamic
+limits) left behind by the requests before it -/
+def LimitsEnforcedAlong (pre : Predef) (m attr : String) (ls : List Layer) : Node J V → List (Env V × Request J V) → Prop
+  | _, [] => True
+  | n, (env, r) :: rest =>
+    (∀ spec j w, r = .change spec j → (step pre env n r).calls = [DriverCall.write m attr w] →
+      ∃ mod p v, Accepted pre env n spec j mod p v w ∧ mod.name = m ∧ p.attr = attr ∧
+        ((∀ i, i < ls.length → ownAt ls i = true → env.chk mod.name attr i v ≠ .stop) → LimitsOK env mod attr v))
+    ∧ LimitsEnforcedAlong pre m attr ls (step pre env n r).node rest
+
+/-- **layout_histories.**  Along every history (requests that moved the limits included, hooks and drivers behaving
+differently at every step) of a node whose parameter `m:attr` belongs to a class hierarchy in which the automatic limit
+check applies: every `change` that reaches `write_<attr>` handed on a value inside the limits current at that moment,
+unless a programmer's hook took the decision over. -/
+theorem layout_histories (pre : Predef) (m attr : String) (ls : List Layer) (hauto : AutoApplies ls none) :
+    ∀ (h : List (Env V × Request J V)) (n : Node J V), Node.WF pre n → HasLayout n m attr ls →
+      LimitsEnforcedAlong pre m attr ls n h := by
+  intro h
+  induction h with
+  | nil => intro n _ _; trivial
+  | cons er rest ih =>
+    intro n hwf hlay
+    obtain ⟨env, r⟩ := er
+    refine ⟨fun spec j w hr hc => ?_, ih _ (wf_step pre env n hwf r) (hasLayout_step pre env n r m attr ls hlay)⟩
+    subst hr
+    exact limits_not_switched_off pre env n hwf spec j m attr w ls hlay hauto hc
+
+end layoutHistories
+
+/-! non-vacuity: `target_max` is introduced by a class that inherits a `check_target` hook from its base class
+(layout: most derived class declares `target_max`, its base defines `check_target`) -/
+
+namespace LayoutExample
+open Example Frappy.ExtParams
+
+def ls : List Layer := [{ declMax := true }, { ownCheck := true }]
+
+def targetL : Param Nat Nat := Example.target.withLayout ls
+def mL : Module Nat Nat := { name := "m", exported := true, accs := [.param targetL, .param targetMax, .param ro, .command stop], props := [] }
+def nodeL : Node Nat Nat := [mL]
+
+theorem wfL : Node.WF pre nodeL := by
+  refine ⟨by unfold namesNodup; decide +kernel, ?_, ?_, ?_, ?_⟩
+  · intro x hx; simp only [nodeL, List.mem_singleton] at hx; subst hx; unfold Module.attrsNodup; decide +kernel
+  · intro x hx; simp only [nodeL, List.mem_singleton] at hx; subst hx; unfold Module.wiresNodup; decide +kernel
+  · intro x hx; simp only [nodeL, List.mem_singleton] at hx; subst hx
+    intro a ha k hk
+    simp only [mL, List.mem_cons, List.not_mem_nil, or_false] at ha
+    rcases ha with rfl | rfl | rfl | rfl <;> revert hk <;> revert k <;> decide +kernel
+  · intro x hx; simp only [nodeL, List.mem_singleton] at hx; subst hx
+    intro a ha p hp hc
+    simp only [mL, List.mem_cons, List.not_mem_nil, or_false] at ha
+    rcases ha with rfl | rfl | rfl | rfl
+    · injection hp with hp; subst hp; simp [targetL, Param.withLayout, Example.target] at hc
+    · injection hp with hp; subst hp; simp [targetMax] at hc
+    · injection hp with hp; subst hp; rfl
+    · cases hp
+
+theorem layL : ∀ mod ∈ nodeL, ∀ p, Acc.param p ∈ mod.accs → mod.name = "m" → p.attr = "target" →
+    p.checks = chainOf ls 0 := by
+  intro mod hmod p hp _ ha
+  simp only [nodeL, List.mem_singleton] at hmod; subst hmod
+  simp only [mL, List.mem_cons, List.not_mem_nil, or_false] at hp
+  rcases hp with hp | hp | hp | hp
+  · injection hp with hp; subst hp; rfl
+  · injection hp with hp; subst hp; simp [targetMax] at ha
+  · injection hp with hp; subst hp; simp [ro] at ha
+  · cases hp
+
+end LayoutExample
+
+open LayoutExample Example in
+/-- the chain `__init_subclass__` builds for that layout: the limit check (attached to the class declaring `target_max`),
+then the inherited hook -/
+example : chainOf ls 0 = [.limits, .hook 1] ∧ Frappy.Spec.C18.AutoApplies ls none := by decide
+
+open LayoutExample Example in
+/-- above `target_max = 50`: refused although the class that introduced the limit inherits a hook; inside: the driver is
+called, and `limits_not_switched_off` yields `LimitsOK` (hypotheses satisfiable, conclusion non-trivial) -/
+example : (handleChange pre env nodeL (.full "m" "target") 60).reply = .error .rangeError ∧
+    (handleChange pre env nodeL (.full "m" "target") 60).calls = [] ∧
+    (handleChange pre env nodeL (.full "m" "target") 20).calls = [DriverCall.write "m" "target" 20] := by
+  decide +kernel
+
+open LayoutExample Example in
+example : ∃ mod p v, Accepted pre env nodeL (.full "m" "target") 20 mod p v 20 ∧ mod.name = "m" ∧ p.attr = "target" ∧
+    ((∀ i, i < ls.length → ownAt ls i = true → env.chk mod.name "target" i v ≠ .stop) → LimitsOK env mod "target" v) :=
+  limits_not_switched_off pre env nodeL wfL (.full "m" "target") 20 "m" "target" 20 ls layL (by decide) (by decide +kernel)
+
+open LayoutExample Example in
+/-- `chain_layout_iff` on the concrete module: 20 passes (stop = none), 60 does not -/
+example : LayoutChecksOK env mL "target" 20 ls ∧ ¬ LayoutChecksOK env mL "target" 60 ls := by
+  have hc : chainOf ls 0 = [.limits, .hook 1] := by decide
+  constructor
+  · refine (chain_layout_iff env mL "target" 20 ls).1 ?_
+    rw [hc]
+    refine Or.inr ⟨?_, Or.inr ⟨?_, trivial⟩⟩
+    · show LimitsOK env mL "target" 20
+      decide +kernel
+    · show env.chk mL.name "target" 1 20 = .pass
+      decide +kernel
+  · intro h
+    have := (chain_layout_iff env mL "target" 60 ls).2 h
+    rw [hc] at this
+    rcases this with h | ⟨h, _⟩
+    · exact h
+    · have h' : LimitsOK env mL "target" 60 := h
+      revert h'
+      decide +kernel
+
+open LayoutExample Example in
+/-- `layout_histories` on a history that first raises `target_max` (hypotheses satisfiable; the second request reaches the
+driver with 60 ≤ 80) -/
+example : LimitsEnforcedAlong pre "m" "target" ls nodeL
+    [(env, .change (.full "m" "target_max") 80), (env, .change (.full "m" "target") 60)] ∧
+    ((run pre nodeL [(env, .change (.full "m" "target_max") 80), (env, .change (.full "m" "target") 60)]).map (·.calls))
+      = [[], [DriverCall.write "m" "target" 60]] :=
+  ⟨layout_histories pre "m" "target" ls (by decide) _ nodeL wfL layL, by decide +kernel⟩
+
+/-! ### the well-formedness hypothesis is decided for every node the harness builds -/
+
+/-- **wf_of_wfB.**  A node the driver's Boolean test accepts satisfies `Node.WF`: the theorems above speak about it. -/
+theorem wf_of_wfB (pre : Predef) (n : Node J V) (h : wfB pre n = true) : Node.WF pre n := by
+  simp only [wfB, Bool.and_eq_true, decide_eq_true_eq, List.all_eq_true] at h
+  obtain ⟨hnames, hmods⟩ := h
+  have hm : ∀ m ∈ n, (m.accs.map Acc.attr).Nodup ∧ (m.accs.filterMap (wireName pre m)).Nodup ∧
+      (∀ a ∈ m.accs, accKindOKB pre a = true) ∧ (∀ a ∈ m.accs, accConstROB a = true) := by
+    intro m hmem
+    have := hmods m hmem
+    simp only [moduleWfB, Bool.and_eq_true, decide_eq_true_eq, List.all_eq_true] at this
+    exact ⟨this.1.1.1, this.1.1.2, this.1.2, this.2⟩
+  refine ⟨hnames, fun m hmem => (hm m hmem).1, fun m hmem => (hm m hmem).2.1, fun m hmem a ha k hk => ?_,
+    fun m hmem a ha p hp hc => ?_⟩
+  · have := (hm m hmem).2.2.1 a ha
+    simp only [accKindOKB, hk, decide_eq_true_eq] at this
+    exact this
+  · have := (hm m hmem).2.2.2 a ha
+    subst hp
+    simp only [accConstROB, hc, Bool.not_true, Bool.false_or] at this
+    exact this
+
+open Example in
+/-- non-vacuity: the example node passes the test (and so does the one with a class layout) -/
+example : wfB pre node = true ∧ wfB pre LayoutExample.nodeL = true := by decide +kernel
+
+open LayoutExample Example in
+/-- `fitting_limits_layout` on the concrete node (60 > target_max = 50; the inherited hook passes 60) -/
+example : handleChange pre env nodeL (.full "m" "target") 60 = ⟨.error .rangeError, [], [], nodeL⟩ :=
+  fitting_limits_layout pre env nodeL wfL (.full "m" "target") 60 "m" "target" rfl mL targetL
+    ⟨by simp [nodeL], rfl, rfl, by simp [mL], by decide +kernel⟩ rfl rfl 60 60 rfl rfl rfl ls rfl (by decide)
+    (fun i _ _ => by simp [env]) (by decide +kernel)
+
+namespace LayoutExample
+open Example Frappy.ExtParams
+/-- the module class removes the `target_max` its base class declared (`target_max = None`): the automatic check is still
+in the chain (attached to the base class), the module has no such parameter -/
+def targetR : Param Nat Nat := Example.target.withLayout [{}, { declMax := true }]
+def mR : Module Nat Nat := { name := "m", exported := true, accs := [.param targetR, .param ro, .command stop], props := [] }
+end LayoutExample
+
+open LayoutExample Example in
+/-- a removed limit does not restrict (and does not make the check fail: repo ff071c8): 60 reaches the driver -/
+example : chainOf [{}, { declMax := true }] 0 = [.limits] ∧
+    (handleChange pre env [mR] (.full "m" "target") 60).calls = [DriverCall.write "m" "target" 60] := by
+  decide +kernel
 
 end Frappy.Props.C04
